@@ -192,8 +192,24 @@ Definition k8_empty_demand_vectors (d : doc) : bool :=
 Definition k9_no_vehicles (d : doc) : bool :=
   forallb (fun v => match v_ids v with [] => true | _ => false end) (d_vehicles d).
 
+(* G2: required breaks of one shift (of a vehicle type that has a vehicle) that mix exact and offset times, or whose
+   [earliest, latest] spans - without the duration E1303 adds - intersect: no documented rule is broken, the reader reports
+   E0002 "cannot create transport costs / check fleet definition" *)
+Definition req_kind_span (b : brk) : list (bool * (Z * Z)) :=
+  match b with
+  | BReqOff e l _ => [(true, (e, l))]
+  | BReqExact e l _ => match tm_val e, tm_val l with Some a, Some b => [(false, (a, b))] | _, _ => [] end
+  | _ => []
+  end.
+Definition g2_shift (s : shift) : bool :=
+  let spans := flat_map req_kind_span (match sh_breaks s with Some bs => bs | None => [] end) in
+  existsb (fun a => existsb (fun b => negb (Bool.eqb (fst a) (fst b))) spans) spans
+  || negb (pairwise (fun a b => negb (overlap a b)) (map snd spans)).
+Definition g2_required_breaks_of (d : doc) : bool :=
+  existsb (fun v => nonempty (v_ids v) && existsb g2_shift (v_shifts v)) (d_vehicles d).
+
 Definition known_table : list (Z * (doc -> bool)) :=
-  [(6, k6_capacity_empty); (7, k7_over8); (8, k8_empty_demand_vectors); (9, k9_no_vehicles)].
+  [(6, k6_capacity_empty); (7, k7_over8); (8, k8_empty_demand_vectors); (9, k9_no_vehicles); (22, g2_required_breaks_of)].
 Definition known (d : doc) : bool := existsb (fun kf => snd kf d) known_table.
 
 (* ---------- entry points for the correspondence ---------- *)
